@@ -8,6 +8,7 @@ import (
 	"os"
 	"path/filepath"
 	"strings"
+	"strconv"
 
 	"verif/symgo/sym"
 )
@@ -21,14 +22,27 @@ func main() {
 	verbose := flag.Bool("v", false, "verbose")
 	logsmt := flag.String("logsmt", "", "dir for SMT transcripts")
 	solver := flag.String("solver", "z3", "solver binary")
+	fresh := flag.Bool("fresh", false, "non-incremental solver queries")
+	logic := flag.String("logic", "", "set-logic in fresh mode")
+	slow := flag.Int("slow", 0, "log queries slower than this many ms")
+	params := flag.String("p", "", "instance parameters k=v,k=v")
 	flag.Parse()
 
-	overlay, err := sym.HarnessOverlay(*repo, *hdir, []string{*pkg})
+	hp, err := sym.HarnessPackages(*hdir)
+	if err != nil {
+		fmt.Println(err)
+		os.Exit(2)
+	}
+	overlay, err := sym.HarnessOverlay(*repo, *hdir, hp, false)
 	if err != nil {
 		fmt.Println("overlay:", err)
 		os.Exit(2)
 	}
-	eng, err := sym.Load(*repo, []string{"./" + *pkg}, overlay, "")
+	var pats []string
+	for _, p := range hp {
+		pats = append(pats, "./"+p)
+	}
+	eng, err := sym.Load(*repo, pats, overlay, "")
 	if err != nil {
 		fmt.Println("load:", err)
 		os.Exit(2)
@@ -36,6 +50,15 @@ func main() {
 	eng.Verbose = *verbose
 	eng.LogSMT = *logsmt
 	eng.SolverBin = *solver
+	eng.Fresh = *fresh
+	eng.SlowMs = *slow
+	eng.SetLogic = *logic
+	for _, kv := range strings.Split(*params, ",") {
+		if k, v, ok := strings.Cut(kv, "="); ok {
+			n, _ := strconv.Atoi(v)
+			eng.Params[k] = n
+		}
+	}
 	var h = eng.FindFunc(pkgPath(eng, *pkg) + "." + *fn)
 	if h == nil {
 		fmt.Println("harness not found")
